@@ -739,9 +739,7 @@ def nontrivial(case, rec):
 FAMILY = dict(C08='fixed', C14='any', C07='any', C18='any', C16='signal', C19='dynamic', C09='any')
 
 
-def run(prop, tier, seed, n_cases, corpus=()):
-    rng = rng_for(seed, 'K7' + prop, tier)
-    cases = list(corpus) + [k7_gen.gen_case(rng, FAMILY[prop]) for _ in range(n_cases)]
+def run_batch(prop, tier, rng, cases, n_corpus):
     reals = run_many(cases)
     # model runs (one driver process)
     lines, spans = [], []
@@ -805,7 +803,51 @@ def run(prop, tier, seed, n_cases, corpus=()):
             f['case_index'] = i
             oracle.append(f)
     stats['cases'] = len(cases)
-    stats['corpus_cases'] = len(corpus)
-    for r in reals:
-        r.pop('parsed', None)
-    return dict(cases=cases, reals=reals, mismatches=mism, oracle=oracle, stats=stats, tally=tally, hist=hist)
+    stats['corpus_cases'] = n_corpus
+    stats['nontrivial_cases'] = sum(1 for c, r in zip(cases, reals) if nontrivial(c, r))
+    return dict(cases=cases, mismatches=mism, oracle=oracle, stats=stats, tally=tally, hist=hist)
+
+
+BATCH = 1500
+
+
+def run(prop, tier, seed, n_cases, corpus=()):
+    """sessions are generated and judged in batches (records are dropped after each batch to bound memory)"""
+    rng = rng_for(seed, 'K7' + prop, tier)
+    total = dict(cases=[], mismatches=[], oracle=[], stats=collections.Counter(), tally=Tally(), hist=collections.Counter())
+    todo = list(corpus)
+    n_corpus = len(todo)
+    remaining = n_cases
+    first = True
+    while first or remaining > 0:
+        k = min(BATCH, remaining)
+        batch = (todo if first else []) + [k7_gen.gen_case(rng, FAMILY[prop]) for _ in range(k)]
+        remaining -= k
+        r = run_batch(prop, tier, rng, batch, n_corpus if first else 0)
+        first = False
+        off = len(total['cases'])
+        # keep the cases of findings only (plus the last one as a sample)
+        keep = sorted(set(x['case_index'] for x in r['mismatches'] + r['oracle']))
+        remap = {}
+        for ci in keep:
+            remap[ci] = len(total['cases'])
+            total['cases'].append(r['cases'][ci])
+        for x in r['mismatches']:
+            x['case_index'] = remap[x['case_index']]
+            total['mismatches'].append(x)
+        for x in r['oracle']:
+            x['case_index'] = remap[x['case_index']]
+            total['oracle'].append(x)
+        total['stats'].update(r['stats'])
+        total['hist'].update(r['hist'])
+        for kk, vv in r['tally'].as_dict().items():
+            pass
+        total['tally'].bit_exact += r['tally'].bit_exact
+        total['tally'].tolerance += r['tally'].tolerance
+        total['tally'].near_disc += r['tally'].near_disc
+        total['tally'].discrete += r['tally'].discrete
+        total['sample'] = r['cases'][-1] if r['cases'] else total.get('sample')
+        if len(total['oracle']) + len(total['mismatches']) > 50:
+            break
+    total['reals'] = None
+    return total
